@@ -1,9 +1,9 @@
 --------------------------- MODULE MC_DrawValidate ---------------------------
 EXTENDS DrawValidate
 VARIABLES c, done
-NewCases == [api : {"new"}, pw : 1..6, ph : 1..5, cols : {4}, rows : {3}, anim : BOOLEAN,
+NewCases == [api : {"new"}, pw : 1..6, ph : 1..5, cols : {4}, rows : {3}, multi : BOOLEAN, animate : BOOLEAN,
              check : BOOLEAN, scroll : BOOLEAN, rw : {0}, rh : {0}, padw : {0}, padh : {0}]
-OldCases == [api : {"old"}, pw : {0}, ph : {0}, cols : {4}, rows : {3}, anim : BOOLEAN,
+OldCases == [api : {"old"}, pw : {0}, ph : {0}, cols : {4}, rows : {3}, multi : BOOLEAN, animate : BOOLEAN,
              check : BOOLEAN, scroll : BOOLEAN, rw : {2, 4, 5}, rh : {1, 3, 4}, padw : {-1, 0, 3, 4, 5},
              padh : {-2, 0, 2, 3, 4}]
 Verdict(x) == IF x.api = "new" THEN NewVerdict(x) ELSE OldVerdict(x)
@@ -14,6 +14,8 @@ Spec == Init /\ [][Next]_<<c, done>>
 \* documented monotonicity: enlarging the terminal never turns an accepted draw into a rejected one
 \* (checked on the table itself)
 Sane == Verdict(c) \in {"ok", "RenderSizeOutofRangeError", "ValueError", "InvalidSizeError"}
+\* whether the source has several frames is irrelevant unless animate is true
+StillDrawOfAnimatedSource == ~c.animate => Verdict(c) = Verdict([c EXCEPT !.multi = FALSE])
 RelaxingNeverRejects ==
   (c.api = "new" /\ NewVerdict(c) = "ok") => NewVerdict([c EXCEPT !.cols = @ + 1, !.rows = @ + 1]) = "ok"
 =============================================================================
